@@ -69,9 +69,10 @@ type store struct {
 	psize    int64
 	length   int64
 	n        int
-	content  []byte
+	seed     uint64
+	pieces   map[int][]byte // content, piece by piece, generated when first needed
 	verified map[int]bool
-	hashes   [][]byte
+	hashes   map[int][]byte
 }
 
 func (s *store) plen(i int) int64 {
@@ -81,15 +82,40 @@ func (s *store) plen(i int) int64 {
 	return s.psize
 }
 
+// piece returns the true content of piece i (a pure function of the seed).
+func (s *store) piece(i int) []byte {
+	if s.pieces == nil {
+		s.pieces = map[int][]byte{}
+	}
+	if d, ok := s.pieces[i]; ok {
+		return d
+	}
+	d := gen.Fill(s.seed+uint64(i)*0x9e3779b97f4a7c15, int(s.plen(i)))
+	s.pieces[i] = d
+	return d
+}
+
+func (s *store) hashOf(i int) []byte {
+	if s.hashes == nil {
+		s.hashes = map[int][]byte{}
+	}
+	if h, ok := s.hashes[i]; ok {
+		return h
+	}
+	h := sha1.Sum(s.piece(i))
+	s.hashes[i] = h[:]
+	return h[:]
+}
+
 func (s *store) verify(i int) {
 	if s.verified[i] {
 		return
 	}
-	off := int64(i) * s.psize
+	d := s.piece(i)
 	for b := int64(0); b < s.plen(i); b += blk {
-		s.ps.AddData(uint32(i), uint32(b), s.content[off+b:min(off+b+blk, off+s.plen(i))], ^uint32(0))
+		s.ps.AddData(uint32(i), uint32(b), d[b:min(b+blk, s.plen(i))], ^uint32(0))
 	}
-	done, _, _ := s.ps.Finalise(uint32(i), hash.Hash(s.hashes[i]))
+	done, _, _ := s.ps.Finalise(uint32(i), hash.Hash(s.hashOf(i)))
 	if done {
 		s.verified[i] = true
 	}
@@ -105,6 +131,7 @@ type caseSpec struct {
 	initial []int // verified pieces
 	partial []int
 	steps   []step
+	big     bool // more than 4 GiB
 }
 
 func genCase(rt *rapid.T) caseSpec {
@@ -120,6 +147,20 @@ func genCase(rt *rapid.T) caseSpec {
 		case 2:
 			c.partial = append(c.partial, i)
 		}
+	}
+	if rapid.IntRange(0, 11).Draw(rt, "beyond4GiB") == 0 {
+		// a torrent of more than 4 GiB: offsets no longer fit 32 bits.  Verified:
+		// a piece beyond 4 GiB and the piece exactly 2^32 bytes before it.
+		c.psK, c.n, c.big = 1024, 4096+rapid.IntRange(1, 4).Draw(rt, "extraPieces"), true
+		hi := rapid.IntRange(4096, c.n-1).Draw(rt, "hi")
+		c.initial, c.partial = []int{hi - 4096, hi}, nil
+		if rapid.Bool().Draw(rt, "onlyHigh") {
+			c.initial = []int{hi}
+		}
+	}
+	if rapid.Bool().Draw(rt, "warm") {
+		// start with peer 0 interested and unchoked: more of the history is spent uploading
+		c.steps = append(c.steps, step{Kind: "interested", P: 0}, step{Kind: "t.unchoke", P: 0})
 	}
 	ns := rapid.IntRange(3, 60).Draw(rt, "nsteps")
 	for i := 0; i < ns; i++ {
@@ -139,17 +180,13 @@ func run(c caseSpec) (fail string, labels map[string]bool, hist []string) {
 	}
 	st := &store{ps: new(piece.Pieces), psize: c.psK * 1024, n: c.n, verified: map[int]bool{}}
 	st.length = st.psize*int64(c.n) - c.tail
-	st.content = gen.Fill(c.seed, int(st.length))
+	st.seed = c.seed
 	st.ps.MetadataComplete(uint32(st.psize), st.length)
-	for i := 0; i < c.n; i++ {
-		h := sha1.Sum(st.content[int64(i)*st.psize:][:st.plen(i)])
-		st.hashes = append(st.hashes, h[:])
-	}
 	for _, i := range c.initial {
 		st.verify(i)
 	}
 	for _, i := range c.partial {
-		st.ps.AddData(uint32(i), 0, st.content[int64(i)*st.psize:][:min(blk, st.plen(i))], ^uint32(0))
+		st.ps.AddData(uint32(i), 0, st.piece(i)[:min(blk, st.plen(i))], ^uint32(0))
 	}
 	sim.Cleanup(func() { st.ps.Del() })
 	local := st.ps.Bitmap()
@@ -162,10 +199,12 @@ func run(c caseSpec) (fail string, labels map[string]bool, hist []string) {
 	for _, m := range rs {
 		m.a.R.Take()
 	}
+	var evLog []string
 	describe := func() string {
 		return fmt.Sprintf("\nstore: %d pieces of %d KiB, length %d, verified %v; peers fast=%v; history: %v", c.n, c.psK, st.length, keys(st.verified), c.fast, hist)
 	}
-	process := func() string {
+	var process func() string
+	process = func() string {
 		sim.Settle()
 		for pi, m := range rs {
 			if bad := m.a.R.Bad(); bad != "" {
@@ -231,14 +270,17 @@ func run(c caseSpec) (fail string, labels map[string]bool, hist []string) {
 						return fmt.Sprintf("peer %d: Piece(%d,%d,%d bytes) lies outside the piece", pi, msg.Index, msg.Begin, len(msg.Data)) + describe()
 					}
 					if !st.verified[i] && !m.grace[i] {
-						return fmt.Sprintf("peer %d: Piece(%d,%d,%d bytes) served from a piece that is not verified (incomplete or evicted)", pi, msg.Index, msg.Begin, len(msg.Data)) + describe()
+						return fmt.Sprintf("peer %d: Piece(%d,%d,%d bytes) served from a piece that is not verified (incomplete or evicted) [store says complete=%v, payload right=%v, evictions so far %v]", pi, msg.Index, msg.Begin, len(msg.Data),
+							st.ps.Complete(msg.Index), bytes.Equal(msg.Data, st.piece(i)[msg.Begin:int64(msg.Begin)+int64(len(msg.Data))]), evLog) + describe()
 					}
-					off := int64(i)*st.psize + int64(msg.Begin)
-					if !bytes.Equal(msg.Data, st.content[off:off+int64(len(msg.Data))]) {
+					if !bytes.Equal(msg.Data, st.piece(i)[msg.Begin:int64(msg.Begin)+int64(len(msg.Data))]) {
 						return fmt.Sprintf("peer %d: Piece(%d,%d,%d bytes) payload differs from the torrent's content", pi, msg.Index, msg.Begin, len(msg.Data)) + describe()
 					}
 					m.served++
 					labels["piece-served"] = true
+					if int64(i)*st.psize >= 1<<32 {
+						labels["served-from-beyond-4GiB"] = true
+					}
 				case ref.KReject:
 					if !m.fast {
 						return fmt.Sprintf("peer %d: Reject sent to a peer without the fast extension", pi) + describe()
@@ -279,9 +321,18 @@ func run(c caseSpec) (fail string, labels map[string]bool, hist []string) {
 		}
 		for pi, m := range rs {
 			if m.a.Alive() {
-				if s := m.a.P.GetStats(); s != nil && s.Ulen > 250 {
-					return fmt.Sprintf("peer %d: %d upload requests queued (limit 250)", pi, s.Ulen) + describe()
+				// (read directly: a synchronous GetStats would wait, in virtual time, for a
+				// peer that is busy timing out on a congested connection, and messages
+				// would arrive at the other remotes behind the model's back)
+				if n := len(peer.VerifUploadQueue(m.a.P)); n > 250 {
+					return fmt.Sprintf("peer %d: %d upload requests queued (limit 250)", pi, n) + describe()
 				}
+			}
+		}
+		for _, m := range rs {
+			if m.a.R.Len() > 0 {
+				// something arrived meanwhile: the model must see it before the next step
+				return process()
 			}
 		}
 		return ""
@@ -314,6 +365,10 @@ func run(c caseSpec) (fail string, labels map[string]bool, hist []string) {
 		}
 		hist = append(hist, s.String())
 		i := s.I % st.n
+		if c.big && s.I%4 != 0 {
+			// mostly aim at the few pieces that hold data
+			i = c.initial[s.I%len(c.initial)]
+		}
 		switch s.Kind {
 		case "interested":
 			m.a.R.Send(ref.Msg{Kind: ref.KInterest})
@@ -328,6 +383,8 @@ func run(c caseSpec) (fail string, labels map[string]bool, hist []string) {
 			sendReq(m, uint32(i), uint32(b), uint32(min(blk, st.plen(i)-b)))
 			if !st.verified[i] {
 				labels["request-unverified-piece"] = true
+			} else if int64(i)*st.psize >= 1<<32 {
+				labels["request-beyond-4GiB"] = true
 			}
 		case "request-odd":
 			var idx, b, l uint32 = uint32(i), 0, blk
@@ -433,6 +490,7 @@ func run(c caseSpec) (fail string, labels map[string]bool, hist []string) {
 		case "evict":
 			nev := st.ps.Expire(0, nil, func(k uint32) {
 				delete(st.verified, int(k))
+				evLog = append(evLog, fmt.Sprintf("step %d: piece %d", len(hist), k))
 				for _, mm := range rs {
 					if mm.paused {
 						// a Piece written before the eviction may still sit in the pipe
